@@ -75,6 +75,9 @@ pub struct Def {
     pub degree: usize,
     #[serde(default)]
     pub lookups: Vec<LookupSpec>,
+    /// the table takes part in cross-table lookups (multi-table system)
+    #[serde(default)]
+    pub ctl: bool,
 }
 
 pub const SHAPES: [(usize, usize); 5] = [(2, 0), (3, 2), (4, 1), (6, 4), (8, 2)];
@@ -266,6 +269,10 @@ impl<const COLS: usize, const PIS: usize> Stark<F, 2> for SimStark<COLS, PIS> {
         self.def.degree
     }
 
+    fn requires_ctls(&self) -> bool {
+        self.def.ctl
+    }
+
     fn lookups(&self) -> Vec<Lookup<F>> {
         self.def
             .lookups
@@ -359,7 +366,7 @@ pub fn gen_blueprint(r: &mut Rng, max_degree: usize, no_constraints_ok: bool) ->
     let (cols, pis) = *r.pick(&SHAPES);
     if no_constraints_ok && r.chance(1, 12) {
         return Blueprint {
-            def: Def { cols, pis, constraints: vec![], degree: 0, lookups: vec![] },
+            def: Def { cols, pis, constraints: vec![], degree: 0, lookups: vec![], ctl: false },
             n_state: 0,
             updates: vec![],
             derived: vec![],
@@ -424,7 +431,7 @@ pub fn gen_blueprint(r: &mut Rng, max_degree: usize, no_constraints_ok: bool) ->
         let c = r.usize(n_state);
         constraints.push(Cons { kind: Kind::First, poly: vec![Term { coef: 1, vars: vec![Var::L(c)] }, Term { coef: rm::neg(init[c]), vars: vec![] }] });
     }
-    Blueprint { def: Def { cols, pis, constraints, degree, lookups: vec![] }, n_state, updates, derived, init, pi_specs, free_seed: r.u64() }
+    Blueprint { def: Def { cols, pis, constraints, degree, lookups: vec![], ctl: false }, n_state, updates, derived, init, pi_specs, free_seed: r.u64() }
 }
 
 /// Draw a definition of a recurrence system together with a trace that satisfies it.
